@@ -42,3 +42,6 @@ Theorem C10_indexed_phrase_boosts_any_query : forall idf n q, wf_query idf n q -
   api_veq (edismax idf n q) (edismax_spec idf n q).
 Proof. exact C10_indexed_any. Qed.
 Print Assumptions C10_indexed_phrase_boosts_any_query.
+
+(* Assumptions of the remaining named statements of this file (the gate requires one per statement). *)
+Print Assumptions C10_shingles3_each_once.
